@@ -121,6 +121,11 @@ def gen_case(seed, tier):
         faults = []
         settings['statistics'] = 0
         settings['eviction_policy'] = rng.choice(('least-recently-stored', 'none'))
+    if any(f.get('f') == 'stall' and f.get('dur', 0) > 50 for f in faults):
+        # an open retries its statements for 60 s and then gives up: under a 70 s stall of a lock holder that is what happens,
+        # and it is neither a progress defect nor of interest here
+        for name in progs:
+            progs[name] = [op for op in progs[name] if op.get('op') != 'open_settings'] or [{'op': 'len'}]
     cfg = {'topology': topo, 'settings': settings, 'sched': sched, 'line_p': line_p, 'prefill': prefill,
            'dircollide': rng.random() < 0.5, 'post_stmt_yield': rng.random() < 0.5,
            'yield_clock': rng.random() < 0.7, 'clock': {'mode': rng.choice(('tick', 'frozen'))},
@@ -160,6 +165,10 @@ def gen_op(rng, ci, j, keys, counters, big_n):
         return {'op': 'set', 'k': rng.choice(counters), 'v': 1000 * (ci + 1) + j}
     if r < 0.30:
         return {'op': 'close'}     # closes the caller's own connection only; the object stays usable, other clients are undisturbed
+    if r < 0.32:
+        # another handle on the directory is opened (and closed again) while the other clients work - a restarted worker,
+        # Django's per-request close() and reopen; it reads the settings and changes nothing
+        return {'op': 'open_settings'}
     k = rng.choice(keys)
     name = rng.choice(('set', 'set', 'setitem', 'add', 'add', 'get', 'get', 'getitem', 'pop', 'delete', 'delitem',
                        'touch', 'contains', 'len', 'iter', 'read'))
@@ -206,6 +215,9 @@ def prefill_state(prefill, keys):
 
 def check_history(history, violations, probes, prefill=None):
     ops = [h for h in history if h['op']['op'] not in ('iter', 'reversed', 'iterkeys', 'iter_mixed')]
+    for h in ops:
+        if h['op']['op'] == 'open_settings':
+            h['anyres'] = True      # its result (the stored settings) is no part of the key-value state
     init = frozenset()
     if prefill:
         keys = []
